@@ -258,6 +258,27 @@ func (x *Exec) letType(lc LetClause) types.Type {
 			}
 		}
 	}
+	// ... or from a function of an imported package ("strings.Split")
+	if i := strings.LastIndex(lc.Callee, "."); i > 0 {
+		for _, imp := range x.Pkg.Types.Imports() {
+			if imp.Name() != lc.Callee[:i] {
+				continue
+			}
+			if fn, ok := imp.Scope().Lookup(lc.Callee[i+1:]).(*types.Func); ok {
+				sig := fn.Type().(*types.Signature)
+				switch strings.TrimSuffix(lc.Kind, "n") {
+				case "arg":
+					if lc.Idx < sig.Params().Len() {
+						return sig.Params().At(lc.Idx).Type()
+					}
+				case "ret":
+					if lc.Idx < sig.Results().Len() {
+						return sig.Results().At(lc.Idx).Type()
+					}
+				}
+			}
+		}
+	}
 	return nil
 }
 
